@@ -194,6 +194,58 @@ def main(argv=None):
         rep.violation(f"a model with non-ASCII annotations is rejected: {c.err}", {"kind": "direct", "text": text})
     else:
         core.guarded(rep, text, check_ode, rep, drv, rng, c.ode, text, "non-ascii", c)
+    # ---- conditions on their boundaries: a saved condition must be the same condition (not an "equivalent" one that differs on a
+    #      threshold, outside the first period of a periodic function, or where a root is taken): every monitored value of the reloaded
+    #      model equals the original's on a grid that contains every threshold, bit for bit
+    import itertools
+    import c01 as _c01
+    btexts = []
+    for _ in range(5 if a.tier == "quick" else 60):
+        c1, _f1 = _c01.rand_cond(rng, 2)
+        c2, _f2 = _c01.rand_cond(rng, 2)
+        btexts.append(("states(x=1, y=2)\n" f"a = 1 + Conditional({c1}, 10, 20)\n" f"b = Conditional({c2}, Conditional({c1}, 1, 2), 3)\n"
+                       "dx_dt = a - x\ndy_dt = b - y\n", [(xv, yv, tv) for xv in _c01.XGRID for yv in _c01.XGRID for tv in _c01.TGRID]))
+    btexts.append(("states(x=1, y=2)\n"
+                   "a = Conditional(Ge(x, -40.0), 1, 2) + Conditional(Ge(x - 10.0, 0), 10, 20) + Conditional(Lt(abs(x - 15), 0.01), 100, 200)\n"
+                   "b = Conditional(Gt(sin(x), 0.5), 1, 2) + Conditional(Le(y*2.0, 3.0), 10, 20) + Conditional(Lt(-y, -1*0.25), 100, 200)\n"
+                   "dx_dt = a - x\ndy_dt = b - y\n",
+                   [(xv, yv, 0.0) for xv in (-40.0, -40.5, 10.0, 9.5, 14.99, 15.01, 15.0, 7.5, -60.3, 0.5235987755982988, 2.0)
+                    for yv in (1.5, 0.25, -1.0, 2.0)]))
+    for btext, grid in btexts:
+        cb = pipeline.Case(drv, btext)
+        rep.case(key=btext, nontrivial=True)
+        if cb.err is not None:
+            rep.count("boundary_model_rejected")
+            continue
+
+        def boundary(btext=btext, grid=grid, cb=cb):
+            dd = tempfile.mkdtemp(prefix="gxc11b_")
+            try:
+                pth = os.path.join(dd, "m.ode")
+                cb.ode.save(pth)
+                saved_b = open(pth).read()
+                o2, _, err2, ex2 = impl.load_text(saved_b)
+            finally:
+                shutil.rmtree(dd, ignore_errors=True)
+            if err2 is not None:
+                rep.violation(f"the saved file is rejected by the loader: {err2}: {repr(ex2)[:120]}", {"kind": "direct", "text": btext, "saved": saved_b, "label": "boundary"})
+                return
+            n1, n2 = impl.exec_module(impl.gen_python(cb.ode)), impl.exec_module(impl.gen_python(o2))
+            order1 = [x_.name for x_ in cb.ode.sorted_assignments()]
+            order2 = [x_.name for x_ in o2.sorted_assignments()]
+            s1 = [s_.name for s_ in cb.ode.sorted_states()]
+            s2 = [s_.name for s_ in o2.sorted_states()]
+            for xv, yv, tv in grid:
+                with np.errstate(all="ignore"):
+                    m1 = dict(zip(order1, map(float, n1["monitor_values"](tv, np.array([{"x": xv, "y": yv}[k] for k in s1]), np.array([])))))
+                    m2 = dict(zip(order2, map(float, n2["monitor_values"](tv, np.array([{"x": xv, "y": yv}[k] for k in s2]), np.array([])))))
+                bad = [k for k in m1 if m1[k] != m2.get(k) and not (m1[k] != m1[k] and m2.get(k) != m2.get(k))]
+                if bad:
+                    rep.violation(f"after save / load {bad[0]} = {m2.get(bad[0])!r} at x = {xv}, y = {yv}, t = {tv}; before {m1[bad[0]]!r}",
+                                  {"kind": "direct", "text": btext, "saved": saved_b, "states": {"x": xv, "y": yv}, "params": {}, "t": tv, "label": "boundary"})
+                    return
+            rep.count("boundary_grids_compared")
+        core.guarded(rep, btext, boundary)
     # ---- the known unit "1" finding
     text = "states(x=1)\nparameters(p=2)\na = p*x # 1\ndx_dt = -a\n"
     c = pipeline.Case(drv, text)
